@@ -1,6 +1,7 @@
 package main
 
 import (
+	"runtime"
 	"os"
 	"bufio"
 	"fmt"
@@ -576,6 +577,13 @@ func (s *Solver) Sync(pc []*Term) {
 	}
 }
 
+// AssertGlobal adds a fact that holds on every path (axioms about uninterpreted functions). It is asserted at
+// the base level of the solver's stack, outside every push.
+func (s *Solver) AssertGlobal(t *Term) {
+	s.Sync(nil)
+	s.send(fmt.Sprintf("(assert %s)", s.ref(t)))
+}
+
 // Prepare sends the definitions of terms ahead of a check, so that they can be evaluated in its model.
 func (s *Solver) Prepare(ts ...*Term) {
 	for _, t := range ts {
@@ -594,7 +602,14 @@ const (
 func (r Result) String() string { return [...]string{"unsat", "sat", "unknown"}[r] }
 
 // Check asks whether pc ∧ extra is satisfiable.
+var qsites = map[string]int{}
+var qsitesOn = os.Getenv("VERIF_QSITES") != ""
+
 func (s *Solver) Check(pc []*Term, extra *Term) Result {
+	if qsitesOn {
+		_, f, l, _ := runtime.Caller(1)
+		qsites[fmt.Sprintf("%s:%d", f[strings.LastIndex(f, "/")+1:], l)]++
+	}
 	t0 := time.Now()
 	defer func() {
 		d := time.Since(t0)
